@@ -403,11 +403,172 @@ async fn list_required(
     )?))
 }
 
+// ------------- endpoint whose markers are 128-bit integers (tagged "wide-ids")
+//
+// Same shape as pagination-multiple-sorts.rs; the items are keyed by a u128
+// id (straddling u64::MAX, near u128::MAX, random 128-bit) and by an i128
+// balance (straddling i64::MIN, near both i128 ends), and the page selector
+// carries that marker.
+
+#[derive(Clone, JsonSchema, Serialize)]
+struct WideItem {
+    id: u128,
+    name: String,
+    bal: i128,
+}
+
+/// item `i` of every wide collection: (id, balance); both unique
+pub fn wide_item(i: u64) -> (u128, i128) {
+    let max64 = u128::from(u64::MAX);
+    let min64 = i128::from(i64::MIN);
+    let i1 = u128::from(i);
+    match i {
+        // u64::MAX-6 ..= u64::MAX+16  /  i64::MIN+6 ..= i64::MIN-16 (downwards)
+        0..=22 => (max64 - 6 + i1, min64 + 6 - i128::from(i as i64)),
+        23..=25 => (u128::MAX - (i1 - 23), i128::MIN + i128::from(i as i64 - 23)),
+        26..=28 => (i1 - 26, i128::MAX - i128::from(i as i64 - 26)),
+        _ => {
+            let x = (i1 + 1).wrapping_mul(0x9E37_79B9_7F4A_7C15_F39C_C060_5CED_C835);
+            (x, x.rotate_left(64) as i128)
+        }
+    }
+}
+
+fn wide_name(id: u128, bal: i128) -> String {
+    format!("w{id:x}/{bal}")
+}
+
+struct WideColl {
+    by_id: BTreeMap<u128, Arc<WideItem>>,
+    by_bal: BTreeMap<i128, Arc<WideItem>>,
+}
+
+impl WideColl {
+    fn new(n: usize) -> WideColl {
+        let mut c = WideColl { by_id: BTreeMap::new(), by_bal: BTreeMap::new() };
+        for i in 0..n as u64 {
+            let (id, bal) = wide_item(i);
+            let p = Arc::new(WideItem { id, name: wide_name(id, bal), bal });
+            c.by_id.insert(id, p.clone());
+            c.by_bal.insert(bal, p);
+        }
+        c
+    }
+}
+
+fn wide_registry() -> &'static Mutex<HashMap<usize, Weak<WideColl>>> {
+    static R: OnceLock<Mutex<HashMap<usize, Weak<WideColl>>>> = OnceLock::new();
+    R.get_or_init(|| Mutex::new(HashMap::new()))
+}
+
+fn acquire_wide(n: usize) -> Arc<WideColl> {
+    let mut g = wide_registry().lock().unwrap();
+    if let Some(c) = g.get(&n).and_then(|w| w.upgrade()) {
+        return c;
+    }
+    let c = Arc::new(WideColl::new(n));
+    g.insert(n, Arc::downgrade(&c));
+    if g.len() > 256 {
+        g.retain(|_, w| w.strong_count() > 0);
+    }
+    c
+}
+
+#[derive(Clone, Deserialize, JsonSchema, Serialize)]
+struct WideScanParams {
+    #[serde(default = "default_wide_sort")]
+    sort: WideSort,
+}
+
+fn default_wide_sort() -> WideSort {
+    WideSort::ByIdAscending
+}
+
+#[derive(Deserialize, Clone, JsonSchema, Serialize)]
+#[serde(rename_all = "kebab-case")]
+enum WideSort {
+    ByIdAscending,
+    ByIdDescending,
+    ByBalAscending,
+    ByBalDescending,
+}
+
+#[derive(Deserialize, Serialize)]
+#[serde(rename_all = "kebab-case")]
+enum WidePageSelector {
+    Id(PaginationOrder, u128),
+    Bal(PaginationOrder, i128),
+}
+
+fn wide_selector_for(last: &WideItem, scan: &WideScanParams) -> WidePageSelector {
+    match scan.sort {
+        WideSort::ByIdAscending => WidePageSelector::Id(Ascending, last.id),
+        WideSort::ByIdDescending => WidePageSelector::Id(Descending, last.id),
+        WideSort::ByBalAscending => WidePageSelector::Bal(Ascending, last.bal),
+        WideSort::ByBalDescending => WidePageSelector::Bal(Descending, last.bal),
+    }
+}
+
+#[endpoint {
+    method = GET,
+    path = "/c/{n}/wide",
+}]
+async fn list_wide(
+    rqctx: RequestContext<C>,
+    path: Path<CollPath>,
+    query: Query<PaginationParams<WideScanParams, WidePageSelector>>,
+) -> Result<HttpResponseOk<ResultsPage<WideItem>>, HttpError> {
+    let pag_params = query.into_inner();
+    let limit = rqctx.page_limit(&pag_params)?.get() as usize;
+    let n = path.into_inner().n;
+    let data = wide_registry()
+        .lock()
+        .unwrap()
+        .get(&n)
+        .and_then(|w| w.upgrade())
+        .ok_or_else(|| HttpError::for_not_found(None, format!("no wide collection {n}")))?;
+    let scan_params = WideScanParams {
+        sort: match &pag_params.page {
+            WhichPage::First(WideScanParams { sort }) => sort.clone(),
+            WhichPage::Next(WidePageSelector::Id(Ascending, ..)) => WideSort::ByIdAscending,
+            WhichPage::Next(WidePageSelector::Id(Descending, ..)) => WideSort::ByIdDescending,
+            WhichPage::Next(WidePageSelector::Bal(Ascending, ..)) => WideSort::ByBalAscending,
+            WhichPage::Next(WidePageSelector::Bal(Descending, ..)) => WideSort::ByBalDescending,
+        },
+    };
+    let items: Vec<WideItem> = {
+        let iter: Box<dyn Iterator<Item = &Arc<WideItem>> + Send> = match &pag_params.page {
+            WhichPage::First(..) => match scan_params.sort {
+                WideSort::ByIdAscending => Box::new(data.by_id.values()),
+                WideSort::ByIdDescending => Box::new(data.by_id.values().rev()),
+                WideSort::ByBalAscending => Box::new(data.by_bal.values()),
+                WideSort::ByBalDescending => Box::new(data.by_bal.values().rev()),
+            },
+            WhichPage::Next(WidePageSelector::Id(Ascending, id)) => Box::new(
+                data.by_id.range((Bound::Excluded(*id), Bound::Unbounded)).map(|(_, v)| v),
+            ),
+            WhichPage::Next(WidePageSelector::Id(Descending, id)) => Box::new(
+                data.by_id.range((Bound::Unbounded, Bound::Excluded(*id))).rev().map(|(_, v)| v),
+            ),
+            WhichPage::Next(WidePageSelector::Bal(Ascending, b)) => Box::new(
+                data.by_bal.range((Bound::Excluded(*b), Bound::Unbounded)).map(|(_, v)| v),
+            ),
+            WhichPage::Next(WidePageSelector::Bal(Descending, b)) => Box::new(
+                data.by_bal.range((Bound::Unbounded, Bound::Excluded(*b))).rev().map(|(_, v)| v),
+            ),
+        };
+        iter.take(limit).map(|p| (**p).clone()).collect()
+    };
+    PAGES_SERVED.fetch_add(1, Ordering::Relaxed);
+    Ok(HttpResponseOk(ResultsPage::new(items, &scan_params, wide_selector_for)?))
+}
+
 fn api() -> ApiDescription<C> {
     let mut api = ApiDescription::new();
     api.register(list_basic).unwrap();
     api.register(list_sorts).unwrap();
     api.register(list_required).unwrap();
+    api.register(list_wide).unwrap();
     api
 }
 
@@ -426,9 +587,25 @@ pub enum Order {
     /// required scan parameters: order + residue class filter
     ReqAsc(u32, u32),
     ReqDesc(u32, u32),
+    /// 128-bit markers (wide collections only)
+    WideDefault,
+    WideIdAsc,
+    WideIdDesc,
+    WideBalAsc,
+    WideBalDesc,
 }
 
 impl Order {
+    fn wide(self) -> bool {
+        matches!(
+            self,
+            Order::WideDefault
+                | Order::WideIdAsc
+                | Order::WideIdDesc
+                | Order::WideBalAsc
+                | Order::WideBalDesc
+        )
+    }
     fn tag(self) -> String {
         match self {
             Order::Basic => "basic-name-asc".into(),
@@ -439,6 +616,11 @@ impl Order {
             Order::IdDesc => "by-id-descending".into(),
             Order::ReqAsc(m, _) => format!("required-asc-mod{}", if m == 1 { "1" } else { "k" }),
             Order::ReqDesc(m, _) => format!("required-desc-mod{}", if m == 1 { "1" } else { "k" }),
+            Order::WideDefault => "u128-default".into(),
+            Order::WideIdAsc => "by-u128-ascending".into(),
+            Order::WideIdDesc => "by-u128-descending".into(),
+            Order::WideBalAsc => "by-i128-ascending".into(),
+            Order::WideBalDesc => "by-i128-descending".into(),
         }
     }
     fn first_query(self) -> (&'static str, Vec<String>) {
@@ -457,12 +639,34 @@ impl Order {
                 "required",
                 vec!["order=descending".into(), format!("modulus={m}"), format!("residue={r}")],
             ),
+            Order::WideDefault => ("wide", vec![]),
+            Order::WideIdAsc => ("wide", vec!["sort=by-id-ascending".into()]),
+            Order::WideIdDesc => ("wide", vec!["sort=by-id-descending".into()]),
+            Order::WideBalAsc => ("wide", vec!["sort=by-bal-ascending".into()]),
+            Order::WideBalDesc => ("wide", vec!["sort=by-bal-descending".into()]),
         }
     }
 }
 
 /// the collection of size n in the requested order — the model
-fn expected(key: usize, order: Order) -> Vec<(u64, String)> {
+/// item identity as the client sees it
+type Id = u128;
+
+fn expected(key: usize, order: Order) -> Vec<(Id, String)> {
+    if order.wide() {
+        let mut v: Vec<(u128, i128)> = (0..key as u64).map(wide_item).collect();
+        match order {
+            Order::WideDefault | Order::WideIdAsc => v.sort_by_key(|x| x.0),
+            Order::WideIdDesc => v.sort_by_key(|x| std::cmp::Reverse(x.0)),
+            Order::WideBalAsc => v.sort_by_key(|x| x.1),
+            _ => v.sort_by_key(|x| std::cmp::Reverse(x.1)),
+        }
+        return v.into_iter().map(|(id, bal)| (id, wide_name(id, bal))).collect();
+    }
+    expected_narrow(key, order).into_iter().map(|(id, n)| (Id::from(id), n)).collect()
+}
+
+fn expected_narrow(key: usize, order: Order) -> Vec<(u64, String)> {
     static MASTER: OnceLock<Vec<(u64, String)>> = OnceLock::new();
     let master = MASTER.get_or_init(|| (0..=MAX_N as u64).map(item).collect());
     let n = size_of_key(key);
@@ -488,6 +692,7 @@ fn expected(key: usize, order: Order) -> Vec<(u64, String)> {
             v.retain(|x| x.0 % u64::from(m) == u64::from(r));
             v.sort_by_key(|x| std::cmp::Reverse(x.0))
         }
+        _ => unreachable!("wide orders are handled by expected()"),
     }
     v
 }
@@ -737,6 +942,58 @@ pub fn scenarios(seed: u64, quick: bool) -> Vec<Scenario> {
             }
         }
     }
+    // tagged class "wide-ids": markers are u128 / i128, straddling the 64-bit
+    // boundaries; every limit makes some page end on either side of them
+    let wide_ns: Vec<usize> = if quick {
+        vec![0, 1, 2, 7, 8, 23, 24, 29, 40, 100, 101, 300]
+    } else {
+        (0..=64).chain([100, 101, 300, 999, 1000, 2500]).collect()
+    };
+    for n in wide_ns {
+        let mut ls: Vec<(Option<u64>, String)> = vec![
+            (None, "absent".into()),
+            (Some(1), "1".into()),
+            (Some(2), "2".into()),
+            (Some(3), "3".into()),
+            (Some(5), "5".into()),
+            (Some(7), "7".into()),
+            (Some(22), "22".into()),
+            (Some(23), "23".into()),
+            (Some(24), "24".into()),
+            (Some(100), "100".into()),
+            (Some(n as u64 + 1), "N+1".into()),
+            (Some(10_001), "10001".into()),
+        ];
+        if n >= 1 {
+            ls.push((Some(n as u64), "N".into()));
+        }
+        if n >= 2 {
+            ls.push((Some(n as u64 - 1), "N-1".into()));
+        }
+        for (l, lc) in ls {
+            for o in [
+                Order::WideDefault,
+                Order::WideIdAsc,
+                Order::WideIdDesc,
+                Order::WideBalAsc,
+                Order::WideBalDesc,
+            ] {
+                let s = Scenario {
+                    n,
+                    n_class: "wide-ids".into(),
+                    limit: l,
+                    limit_class: lc.clone(),
+                    order: o,
+                    idx: 0,
+                    total: n,
+                    long: false,
+                };
+                if s.requests() <= max_requests.max(400) {
+                    out.push(s);
+                }
+            }
+        }
+    }
     for (i, s) in out.iter_mut().enumerate() {
         s.idx = i as u64;
     }
@@ -747,7 +1004,7 @@ pub fn scenarios(seed: u64, quick: bool) -> Vec<Scenario> {
 
 #[derive(Deserialize)]
 struct PageItem {
-    id: u64,
+    id: Id,
     name: String,
 }
 
@@ -869,7 +1126,8 @@ impl Scanner {
         let enc_random = rng.chance(1, 4);
         let fresh_conn_each_page = rng.chance(1, 8);
         let limit_first = rng.bool();
-        let _hold = acquire(s.key());
+        let _hold_wide = if s.order.wide() { Some(acquire_wide(s.n)) } else { None };
+        let _hold = if s.order.wide() { None } else { Some(acquire(s.key())) };
 
         let (ep, first_q) = s.order.first_query();
         let limit_q = s.limit.map(|l| format!("limit={l}"));
@@ -890,15 +1148,15 @@ impl Scanner {
         let mut fq = first_q.clone();
         rng.shuffle(&mut fq);
         let mut target = mk_target(fq);
-        let mut got: Vec<(u64, String)> = Vec::with_capacity(total);
+        let mut got: Vec<(Id, String)> = Vec::with_capacity(total);
         let mut requests: u64 = 0;
         let mut page_sizes: Vec<usize> = vec![];
         let mut violated = false;
         loop {
             if requests >= bound {
                 self.rep.eval(class.clone());
-                let mut seen: HashSet<u64> = HashSet::new();
-                let dups: Vec<u64> =
+                let mut seen: HashSet<Id> = HashSet::new();
+                let dups: Vec<Id> =
                     got.iter().map(|x| x.0).filter(|id| !seen.insert(*id)).collect();
                 self.rep.violate(
                     "C15:scan-not-finished-within-bound",
@@ -912,7 +1170,7 @@ impl Scanner {
                         "C15:scan-is-not-the-collection:items-duplicated",
                         json!({"scenario": w, "aborted_after_requests": requests,
                                "duplicate_count": dups.len(),
-                               "duplicated_ids_head": dups.iter().take(5).collect::<Vec<_>>()}),
+                               "duplicated_ids_head": ids_head(&dups)}),
                     );
                 }
                 return;
@@ -1014,8 +1272,8 @@ impl Scanner {
         }
         // ---- the concatenation is the collection, in order
         if got != exp {
-            let want_ids: HashSet<u64> = exp.iter().map(|x| x.0).collect();
-            let mut seen: HashSet<u64> = HashSet::new();
+            let want_ids: HashSet<Id> = exp.iter().map(|x| x.0).collect();
+            let mut seen: HashSet<Id> = HashSet::new();
             let mut dup = vec![];
             let mut foreign = vec![];
             for (id, _) in &got {
@@ -1026,7 +1284,7 @@ impl Scanner {
                     foreign.push(*id);
                 }
             }
-            let missing: Vec<u64> =
+            let missing: Vec<Id> =
                 exp.iter().map(|x| x.0).filter(|id| !seen.contains(id)).collect();
             let altered = got.iter().any(|(id, name)| {
                 want_ids.contains(id) && exp.iter().find(|x| x.0 == *id).map(|x| &x.1) != Some(name)
@@ -1047,8 +1305,8 @@ impl Scanner {
                 format!("C15:scan-is-not-the-collection:{kind}"),
                 json!({"scenario": w, "requests": requests,
                        "received": got.len(), "collection": total,
-                       "duplicated_ids_head": dup.iter().take(5).collect::<Vec<_>>(),
-                       "missing_ids_head": missing.iter().take(5).collect::<Vec<_>>(),
+                       "duplicated_ids_head": ids_head(&dup),
+                       "missing_ids_head": ids_head(&missing),
                        "missing_count": missing.len(), "duplicate_count": dup.len(),
                        "first_difference_at": first_diff,
                        "page_sizes_head": page_sizes.iter().take(6).collect::<Vec<_>>()}),
@@ -1071,13 +1329,19 @@ impl Scanner {
     }
 }
 
+/// 128-bit ids do not fit into a serde_json::Value number: print them
+fn ids_head(v: &[Id]) -> Vec<String> {
+    v.iter().take(5).map(|x| x.to_string()).collect()
+}
+
 pub fn rule() -> &'static str {
     "one case = one full scan (first page, then every returned next_page token until none) of a collection \
      of N uniquely identified items through a live paginated endpoint; class = (N class, limit class, \
      order/endpoint, N vs effective limit, N mod effective limit zero or not); grid N x limit x order \
      from DESIGN C15 plus random (N, limit, order) triples drawn from (seed), plus the tagged class \
      long-names (items whose page selector exceeds the token size limit: a page ending on one must be \
-     refused loudly — counted, not judged — and never be answered as a token-less non-empty page)"
+     refused loudly — counted, not judged — and never be answered as a token-less non-empty page) and \
+     the tagged class wide-ids (u128 / i128 markers straddling the 64-bit boundaries)"
 }
 
 /// sanity of the model itself: ids and names unique
@@ -1085,6 +1349,14 @@ pub fn self_check() -> Result<(), String> {
     let c = Coll::new(25_001);
     if c.by_name.len() != 25_001 || c.by_id.len() != 25_001 {
         return Err("harness collection has duplicate ids or names".into());
+    }
+    let w = WideColl::new(3000);
+    if w.by_id.len() != 3000
+        || w.by_bal.len() != 3000
+        || !w.by_id.contains_key(&(u128::from(u64::MAX) + 1))
+        || !w.by_bal.contains_key(&(i128::from(i64::MIN) - 1))
+    {
+        return Err("wide collection has duplicate or missing boundary markers".into());
     }
     let l = Coll::new(LONG_BASE + 300);
     if l.by_name.len() != 300
